@@ -17,6 +17,16 @@ res() { echo "$1" | tee -a /tmp/confirm/$P$X/result.txt; }
 git apply $SRC/patch.diff || { res "PATCH-DOES-NOT-APPLY"; cd /; git -C /repo worktree remove --force $WT; exit 1; }
 go build ./... || { res "BUILD-FAILS"; cd /; git -C /repo worktree remove --force $WT; exit 1; }
 go test -vet=off -count=1 -p 6 ./... > /tmp/confirm/$P$X/suite.log 2>&1; SUITE=$?
+if [ $SUITE != 0 ]; then
+  # test/versus_test.go hard-codes /tmp/bleve-versus-test-a: concurrent suite runs collide; retry failing packages alone
+  FAILED=$(grep -E "^FAIL\s+github.com" /tmp/confirm/$P$X/suite.log | awk '{print $2}' | sed 's#github.com/blevesearch/bleve/v2#.#')
+  SUITE=0
+  for fp in $FAILED; do
+    ok=1
+    for try in 1 2 3; do go test -vet=off -count=1 $fp >> /tmp/confirm/$P$X/suite_retry.log 2>&1 && { ok=0; break; }; sleep 3; done
+    [ $ok != 0 ] && SUITE=1
+  done
+fi
 res "suite_exit_with_patch=$SUITE"
 cp $DEMO $PKG/
 go test -vet=off -count=1 -run "$RUN" ./$PKG/ > /tmp/confirm/$P$X/demo_with.log 2>&1; DW=$?
